@@ -38,12 +38,16 @@ ROWS = [
     (15, 'EKey', W + ['--insulation-load=0.01,2,99']), (15, 'EValue', W + ['--insulation-load=0.0001,2']), (15, 'EValue', W + ['--insulation-load=0.01,0']),
     (16, 'EValue', W + ['--theta=0,x,3']), (16, 'EValue', W + ['--phi=0,10,1.5']),
     (17, 'EValue', W + ['--near-field=1,1,1,1,1,1,x,1,1']),
-    (18, 'ELinAlg', ['-w', '5,0,0,0,1,0,0,0.001', '-w', '5,0,0,0,1,0,0,0.001', '--excitation-pulse=2']),
-    (18, 'EFloat', W + ['--excitation-voltage=0']),
-    (18, 'EMemory', ['-w', '200000,0,0,0,1,0,0,0.000001', '--excitation-pulse=2']),
-    (19, 'EFloat', W + ['--ff-distance=1e-320', '--option=far-field-absolute']),
-    (19, 'EValue', W + ['--near-field=1,1,1,1e308,1,1,3,1,1']),
-    (20, None, W),
+    (19, 'ELinAlg', ['-w', '5,0,0,0,1,0,0,0.001', '-w', '5,0,0,0,1,0,0,0.001', '--excitation-pulse=2']),
+    (19, 'EFloat', W + ['--excitation-voltage=0']),
+    (19, 'EMemory', ['-w', '200000,0,0,0,1,0,0,0.000001', '--excitation-pulse=2']),
+    (20, 'EFloat', W + ['--ff-distance=1e-320', '--option=far-field-absolute']),
+    (20, 'EValue', W + ['--near-field=1,1,1,1e308,1,1,3,1,1']),
+    (12, 'EValue', W + ['--laplace-load-a=' + ','.join(['1'] * 60), '--laplace-load-b=1', '--attach-load=1,all']),
+    (0, None, W + ['--frequency-steps=' + '9' * 400, '--frequency-increment=1']),
+    (18, 'EOs', W + ['--output-cmdline=/nonexistent-dir/x.pym']),
+    (18, 'ENotImpl', W + ['--load=5', '--rlc-load=1,1e-6,', '--attach-load=1,1', '--attach-load=2,2', '--output-basic-input=/nonexistent-dir/x.mini']),
+    (21, None, W),
 ]
 
 def run_rows(chk):
@@ -67,7 +71,7 @@ def run_rows(chk):
     model = [int(x) for x in re.findall(r'\d+', m.group(1))]
     it = iter(model); nbad = 0
     for i, (st, kd, a) in enumerate(ROWS):
-        want = {0: 'report', 1: 'diag', 2: 'uncaught'}[next(it)] if kd else ('report' if st == 20 else 'diag')
+        want = {0: 'report', 1: 'diag', 2: 'uncaught'}[next(it)] if kd else ('report' if st == 21 else 'diag')
         x = real.get(i)
         if x is None or 'error' in x:
             chk.tie_broken('correspondence', 'main', 'row %d could not be run' % i); continue
